@@ -516,7 +516,7 @@ func (P *Program) expandTemplates() {
 		}
 		var fns []*ssa.Function
 		for fn := range P.allFuncs {
-			if fn.Pkg != nil && fn.Pkg.Pkg.Path() == t.Pkg && fn.Blocks != nil && fn.Parent() == nil && re.MatchString(fn.RelString(fn.Pkg.Pkg)) {
+			if fn.Pkg != nil && fn.Pkg.Pkg.Path() == t.Pkg && fn.Blocks != nil && (fn.Parent() == nil || strings.Contains(t.Key, `\$`)) && re.MatchString(fn.RelString(fn.Pkg.Pkg)) {
 				if exc != nil && exc.MatchString(fn.RelString(fn.Pkg.Pkg)) {
 					continue
 				}
